@@ -183,10 +183,12 @@ def shapes(tier):
 
 
 # ------------------------------------------------------------------ builders
-def make(shape, v, mode, steps):
-    """build an instance holding v; appends the setup expressions to steps; mode 'lit' | 'expr'"""
+def make(shape, v, mode, steps, inst=None):
+    """build an instance holding v (or fill the given one); appends the setup expressions to steps;
+    mode 'lit' | 'expr'"""
     sp = spec(shape)
-    inst = sp.new_instance()
+    if inst is None:
+        inst = sp.new_instance()
     if isinstance(shape, str):
         if shape == "bool":
             steps.append(inst.set(v if mode == "lit" else pt.Int(1 if v else 0)))
